@@ -302,6 +302,17 @@ Proof.
   pose proof (F 1 1%nat [] [TimedTaskModel.UDtor] s s' HN Hr Hd Hr2) as E. rewrite E in Hu. discriminate Hu.
 Qed.
 
+(* a second use-after-free of the closure that does not involve the destructor (C26 observation): after an invocation
+   returned false the wrapper's func = {} frees the closure while the scheduler role is still executing it *)
+Definition timedtask_false_return_uaf : Prop :=
+  exists s, reach TimedTaskModel.step (TimedTaskModel.init 2 2 [false] []) s /\
+            TimedTaskModel.dtor_ret (TimedTaskModel.g s) = false /\ 0 < TimedTaskModel.uaf (TimedTaskModel.g s).
+
+Lemma timedtask_false_return_uaf_proof : timedtask_false_return_uaf.
+Proof.
+  destruct Properties_C26.C26_observed_false_return_frees_functor_in_use as (s & A & B & _ & C). exists s. auto.
+Qed.
+
 (* ------------------------------------------------------------------------------------------------ chunk arithmetic (C15, C17) *)
 Definition in_ssize (z : Z) : Prop := - 2 ^ 63 <= z < 2 ^ 63.
 
@@ -342,13 +353,13 @@ Proof.
   - apply Z.eqb_eq in E. tauto.
   - apply Z.eqb_neq in E. split; [|tauto].
     destruct ((h =? H_TIMEDTASK) && (k =? K_UAF) && Z.testbit mask 1); [discriminate|].
-    destruct ((h =? H_TIMEDTASK) && (k =? K_UAF) && Z.testbit mask 2); discriminate.
+    destruct ((h =? H_TIMEDTASK) && (k =? K_UAF) && Z.testbit mask 3); discriminate.
 Qed.
 
 (* the suppression is never wider than C26's domains: a record judged "known" is a use-after-free of a TimedTask case that
    C26's own judge placed in the corresponding finding domain *)
 Lemma judge_san_known_sound r : judge_san r = 4 \/ judge_san r = 5 ->
-  fst (fst r) = H_TIMEDTASK /\ snd (fst r) = K_UAF /\ (Z.testbit (snd r) 1 = true \/ Z.testbit (snd r) 2 = true).
+  fst (fst r) = H_TIMEDTASK /\ snd (fst r) = K_UAF /\ (Z.testbit (snd r) 1 = true \/ Z.testbit (snd r) 3 = true).
 Proof.
   destruct r as [[h k] mask]. unfold judge_san, known_c26_dtor, known_c26_false. cbn [fst snd].
   destruct (k =? 0); [intros [H|H]; discriminate|].
@@ -356,7 +367,7 @@ Proof.
   destruct (k =? K_UAF) eqn:Ek; cbn [andb]; [|intros [H|H]; discriminate].
   apply Z.eqb_eq in Eh, Ek.
   destruct (Z.testbit mask 1) eqn:E1; [tauto|].
-  destruct (Z.testbit mask 2) eqn:E2; [tauto|]. intros [H|H]; discriminate.
+  destruct (Z.testbit mask 3) eqn:E2; [tauto|]. intros [H|H]; discriminate.
 Qed.
 
 (* ------------------------------------------------------------------------------------------------ roll-up *)
